@@ -185,7 +185,21 @@ def r02_4(ctx):
     for body in ctx.facts.bodies(prefix="transports::dtls::"):
         if "::tests::" in body.name:
             continue
-        ws = [w for w in core.field_writes(body, lambda f: f == "peer_certificate", deep=True) if w[1] is not None]
+        allw = core.field_writes(body, lambda f: f == "peer_certificate", deep=True)
+        for bi, si, st in [w for w in allw if w[1] is None]:
+            # the field receives a call result (e.g. `certificates.pop()`): not the value whose digest was compared
+            n += 1
+            r.violate(body.name, "write:peer_certificate", body.where(bi),
+                      "peer certificate stored from %s: not (provably) the certificate whose SHA-256 was compared with the expected fingerprint"
+                      % mir.show(body.term_call(st), 80))
+        ws = [w for w in allw if w[1] is not None]
+        for bi, si, st in ws:
+            v = body.term_rvalue(st["rv"])
+            if not (v[0] == "agg" and v[2] in ("Some", "None")) and v[0] != "unknown" and not body.name.endswith("HandshakeContext::new"):
+                n += 1
+                r.violate(body.name, "write:peer_certificate", body.where(bi, si),
+                          "peer certificate stored from %s: not (provably) the certificate whose SHA-256 was compared with the expected fingerprint"
+                          % mir.show(v, 80))
         ws = [w for w in ws if (body.term_rvalue(w[2]["rv"])[0] == "agg" and body.term_rvalue(w[2]["rv"])[2] == "Some")
               or body.term_rvalue(w[2]["rv"])[0] == "unknown"]
         if not ws:
